@@ -1,0 +1,853 @@
+//go:build verif
+
+// Contract stubs for the ownership / no-panic sweep (C14, C19): every function of package query that hands a value
+// to value.Discard. No annotation beyond the property tags: the obligations are the preconditions of Discard at each call
+// site (the value is a temporary created by this activation) and the safety conditions (index, slice, nil, division,
+// type assertion) of the body.
+package query
+
+//@ func (AnalyticListAgg).Execute
+//@   property C14 C19
+//@   safety
+
+//@ func (NthValue).Execute
+//@   property C14 C19
+//@   safety
+
+//@ func ByteLen
+//@   property C14 C19
+//@   safety
+
+//@ func Chdir
+//@   property C14 C19
+//@   safety
+
+//@ func DateDiff
+//@   property C14 C19
+//@   safety
+
+//@ func Datetime
+//@   property C14 C19
+//@   safety
+
+//@ func Datetime$1
+//@   property C14 C19
+//@   safety
+
+//@ func DatetimeFormat
+//@   property C14 C19
+//@   safety
+
+//@ func Enotation
+//@   property C14 C19
+//@   safety
+
+//@ func EnotationToDec
+//@   property C14 C19
+//@   safety
+
+//@ func FetchCursor
+//@   property C14 C19
+//@   safety
+
+//@ func Format
+//@   property C14 C19
+//@   safety
+
+//@ func Instr
+//@   property C14 C19
+//@   safety
+
+//@ func JsonValue
+//@   property C14 C19
+//@   safety
+
+//@ func Like
+//@   property C14 C19
+//@   safety
+
+//@ func ListElem
+//@   property C14 C19
+//@   safety
+
+//@ func MilliToDatetime
+//@   property C14 C19
+//@   safety
+
+//@ func NanoToDatetime
+//@   property C14 C19
+//@   safety
+
+//@ func NewSortValue
+//@   property C14 C19
+//@   safety
+
+//@ func NumberFormat
+//@   property C14 C19
+//@   safety
+
+//@ func ParseExecuteStatements
+//@   property C14 C19
+//@   safety
+
+//@ func Printf
+//@   property C14 C19
+//@   safety
+
+//@ func Rand
+//@   property C14 C19
+//@   safety
+
+//@ func RemoveFlagElement
+//@   property C14 C19
+//@   safety
+
+//@ func ReplaceFn
+//@   property C14 C19
+//@   safety
+
+//@ func SerializeKey
+//@   property C14 C19
+//@   safety
+
+//@ func SetEnvVar
+//@   property C14 C19
+//@   safety
+
+//@ func SetFlag
+//@   property C14 C19
+//@   safety
+
+//@ func SetTableAttribute
+//@   property C14 C19
+//@   safety
+
+//@ func Source
+//@   property C14 C19
+//@   safety
+
+//@ func Syntax
+//@   property C14 C19
+//@   safety
+
+//@ func UTC
+//@   property C14 C19
+//@   safety
+
+//@ func Width
+//@   property C14 C19
+//@   safety
+
+//@ func checkArgsForListFunction
+//@   property C14 C19
+//@   safety
+
+//@ func evalConcat
+//@   property C14 C19
+//@   safety
+
+//@ func evalUnaryArithmetic
+//@   property C14 C19
+//@   safety
+
+//@ func execCrypto
+//@   property C14 C19
+//@   safety
+
+//@ func execCryptoHMAC
+//@   property C14 C19
+//@   safety
+
+//@ func execDatetimeAdd
+//@   property C14 C19
+//@   safety
+
+//@ func execDatetimeToInt
+//@   property C14 C19
+//@   safety
+
+//@ func execFormatInt
+//@   property C14 C19
+//@   safety
+
+//@ func execMath1Arg
+//@   property C14 C19
+//@   safety
+
+//@ func execMath2Args
+//@   property C14 C19
+//@   safety
+
+//@ func execParseInt
+//@   property C14 C19
+//@   safety
+
+//@ func execStrings1Arg
+//@   property C14 C19
+//@   safety
+
+//@ func execStringsLen
+//@   property C14 C19
+//@   safety
+
+//@ func execStringsPadding
+//@   property C14 C19
+//@   safety
+
+//@ func execStringsTrim
+//@   property C14 C19
+//@   safety
+
+//@ func loadView$1
+//@   property C14 C19
+//@   safety
+
+//@ func prepareRegExp
+//@   property C14 C19
+//@   safety
+
+//@ func prepareRegExpReplace
+//@   property C14 C19
+//@   safety
+
+//@ func roundParams
+//@   property C14 C19
+//@   safety
+
+//@ func setLag
+//@   property C14 C19
+//@   safety
+
+//@ func substr
+//@   property C14 C19
+//@   safety
+
+//@ func timeDiff
+//@   property C14 C19
+//@   safety
+
+//@ func truncateDate
+//@   property C14 C19
+//@   safety
+
+//@ func truncateDuration
+//@   property C14 C19
+//@   safety
+
+// no-panic sweep (C19) over the built-in functions and the FORMAT interpreter: safety conditions only
+//@ func Coalesce
+//@   property C19
+//@   safety
+
+//@ func If
+//@   property C19
+//@   safety
+
+//@ func Ifnull
+//@   property C19
+//@   safety
+
+//@ func Nullif
+//@   property C19
+//@   safety
+
+//@ func Ceil
+//@   property C19
+//@   safety
+
+//@ func Floor
+//@   property C19
+//@   safety
+
+//@ func round
+//@   property C19
+//@   safety
+
+//@ func Round
+//@   property C19
+//@   safety
+
+//@ func Abs
+//@   property C19
+//@   safety
+
+//@ func Acos
+//@   property C19
+//@   safety
+
+//@ func Acosh
+//@   property C19
+//@   safety
+
+//@ func Asin
+//@   property C19
+//@   safety
+
+//@ func Asinh
+//@   property C19
+//@   safety
+
+//@ func Atan
+//@   property C19
+//@   safety
+
+//@ func Atan2
+//@   property C19
+//@   safety
+
+//@ func Atanh
+//@   property C19
+//@   safety
+
+//@ func Cbrt
+//@   property C19
+//@   safety
+
+//@ func Cos
+//@   property C19
+//@   safety
+
+//@ func Cosh
+//@   property C19
+//@   safety
+
+//@ func Exp
+//@   property C19
+//@   safety
+
+//@ func Exp2
+//@   property C19
+//@   safety
+
+//@ func Expm1
+//@   property C19
+//@   safety
+
+//@ func IsInf
+//@   property C19
+//@   safety
+
+//@ func IsNaN
+//@   property C19
+//@   safety
+
+//@ func MathLog
+//@   property C19
+//@   safety
+
+//@ func Log10
+//@   property C19
+//@   safety
+
+//@ func Log1p
+//@   property C19
+//@   safety
+
+//@ func Log2
+//@   property C19
+//@   safety
+
+//@ func Logb
+//@   property C19
+//@   safety
+
+//@ func Pow
+//@   property C19
+//@   safety
+
+//@ func Sin
+//@   property C19
+//@   safety
+
+//@ func Sinh
+//@   property C19
+//@   safety
+
+//@ func Sqrt
+//@   property C19
+//@   safety
+
+//@ func Tan
+//@   property C19
+//@   safety
+
+//@ func Tanh
+//@   property C19
+//@   safety
+
+//@ func BinToDec
+//@   property C19
+//@   safety
+
+//@ func OctToDec
+//@   property C19
+//@   safety
+
+//@ func HexToDec
+//@   property C19
+//@   safety
+
+//@ func Bin
+//@   property C19
+//@   safety
+
+//@ func Oct
+//@   property C19
+//@   safety
+
+//@ func Hex
+//@   property C19
+//@   safety
+
+//@ func base64Encode
+//@   property C19
+//@   safety
+
+//@ func base64Decode
+//@   property C19
+//@   safety
+
+//@ func hexEncode
+//@   property C19
+//@   safety
+
+//@ func hexDecode
+//@   property C19
+//@   safety
+
+//@ func trim
+//@   property C19
+//@   safety
+
+//@ func ltrim
+//@   property C19
+//@   safety
+
+//@ func rtrim
+//@   property C19
+//@   safety
+
+//@ func Trim
+//@   property C19
+//@   safety
+
+//@ func Ltrim
+//@   property C19
+//@   safety
+
+//@ func Rtrim
+//@   property C19
+//@   safety
+
+//@ func Upper
+//@   property C19
+//@   safety
+
+//@ func Lower
+//@   property C19
+//@   safety
+
+//@ func Base64Encode
+//@   property C19
+//@   safety
+
+//@ func Base64Decode
+//@   property C19
+//@   safety
+
+//@ func HexEncode
+//@   property C19
+//@   safety
+
+//@ func HexDecode
+//@   property C19
+//@   safety
+
+//@ func Len
+//@   property C19
+//@   safety
+
+//@ func Lpad
+//@   property C19
+//@   safety
+
+//@ func Rpad
+//@   property C19
+//@   safety
+
+//@ func Substring
+//@   property C19
+//@   safety
+
+//@ func Substr
+//@   property C19
+//@   safety
+
+//@ func prepareRegExpMatch
+//@   property C19
+//@   safety
+
+//@ func RegExpMatch
+//@   property C19
+//@   safety
+
+//@ func RegExpFind
+//@   property C19
+//@   safety
+
+//@ func RegExpFindSubMatches
+//@   property C19
+//@   safety
+
+//@ func RegExpFindAll
+//@   property C19
+//@   safety
+
+//@ func RegExpReplace
+//@   property C19
+//@   safety
+
+//@ func TitleCase
+//@   property C19
+//@   safety
+
+//@ func Md5
+//@   property C19
+//@   safety
+
+//@ func Sha1
+//@   property C19
+//@   safety
+
+//@ func Sha256
+//@   property C19
+//@   safety
+
+//@ func Sha512
+//@   property C19
+//@   safety
+
+//@ func Md5Hmac
+//@   property C19
+//@   safety
+
+//@ func Sha1Hmac
+//@   property C19
+//@   safety
+
+//@ func Sha256Hmac
+//@   property C19
+//@   safety
+
+//@ func Sha512Hmac
+//@   property C19
+//@   safety
+
+//@ func year
+//@   property C19
+//@   safety
+
+//@ func month
+//@   property C19
+//@   safety
+
+//@ func day
+//@   property C19
+//@   safety
+
+//@ func hour
+//@   property C19
+//@   safety
+
+//@ func minute
+//@   property C19
+//@   safety
+
+//@ func second
+//@   property C19
+//@   safety
+
+//@ func millisecond
+//@   property C19
+//@   safety
+
+//@ func microsecond
+//@   property C19
+//@   safety
+
+//@ func nanosecond
+//@   property C19
+//@   safety
+
+//@ func weekday
+//@   property C19
+//@   safety
+
+//@ func unixTime
+//@   property C19
+//@   safety
+
+//@ func unixNanoTime
+//@   property C19
+//@   safety
+
+//@ func dayOfYear
+//@   property C19
+//@   safety
+
+//@ func weekOfYear
+//@   property C19
+//@   safety
+
+//@ func addYear
+//@   property C19
+//@   safety
+
+//@ func addMonth
+//@   property C19
+//@   safety
+
+//@ func addDay
+//@   property C19
+//@   safety
+
+//@ func addHour
+//@   property C19
+//@   safety
+
+//@ func addMinute
+//@   property C19
+//@   safety
+
+//@ func addSecond
+//@   property C19
+//@   safety
+
+//@ func addMilli
+//@   property C19
+//@   safety
+
+//@ func addMicro
+//@   property C19
+//@   safety
+
+//@ func addNano
+//@   property C19
+//@   safety
+
+//@ func Year
+//@   property C19
+//@   safety
+
+//@ func Month
+//@   property C19
+//@   safety
+
+//@ func Day
+//@   property C19
+//@   safety
+
+//@ func Hour
+//@   property C19
+//@   safety
+
+//@ func Minute
+//@   property C19
+//@   safety
+
+//@ func Second
+//@   property C19
+//@   safety
+
+//@ func Millisecond
+//@   property C19
+//@   safety
+
+//@ func Microsecond
+//@   property C19
+//@   safety
+
+//@ func Nanosecond
+//@   property C19
+//@   safety
+
+//@ func Weekday
+//@   property C19
+//@   safety
+
+//@ func UnixTime
+//@   property C19
+//@   safety
+
+//@ func UnixNanoTime
+//@   property C19
+//@   safety
+
+//@ func DayOfYear
+//@   property C19
+//@   safety
+
+//@ func WeekOfYear
+//@   property C19
+//@   safety
+
+//@ func AddYear
+//@   property C19
+//@   safety
+
+//@ func AddMonth
+//@   property C19
+//@   safety
+
+//@ func AddDay
+//@   property C19
+//@   safety
+
+//@ func AddHour
+//@   property C19
+//@   safety
+
+//@ func AddMinute
+//@   property C19
+//@   safety
+
+//@ func AddSecond
+//@   property C19
+//@   safety
+
+//@ func AddMilli
+//@   property C19
+//@   safety
+
+//@ func AddMicro
+//@   property C19
+//@   safety
+
+//@ func AddNano
+//@   property C19
+//@   safety
+
+//@ func TruncMonth
+//@   property C19
+//@   safety
+
+//@ func TruncDay
+//@   property C19
+//@   safety
+
+//@ func TruncTime
+//@   property C19
+//@   safety
+
+//@ func TruncMinute
+//@   property C19
+//@   safety
+
+//@ func TruncSecond
+//@   property C19
+//@   safety
+
+//@ func TruncMilli
+//@   property C19
+//@   safety
+
+//@ func TruncMicro
+//@   property C19
+//@   safety
+
+//@ func TruncNano
+//@   property C19
+//@   safety
+
+//@ func durationSeconds
+//@   property C19
+//@   safety
+
+//@ func durationNanoseconds
+//@   property C19
+//@   safety
+
+//@ func TimeDiff
+//@   property C19
+//@   safety
+
+//@ func TimeNanoDiff
+//@   property C19
+//@   safety
+
+//@ func String
+//@   property C19
+//@   safety
+
+//@ func Integer
+//@   property C19
+//@   safety
+
+//@ func Float
+//@   property C19
+//@   safety
+
+//@ func Boolean
+//@   property C19
+//@   safety
+
+//@ func Ternary
+//@   property C19
+//@   safety
+
+//@ func Call
+//@   property C19
+//@   safety
+
+//@ func Now
+//@   property C19
+//@   safety
+
+//@ func JsonObject
+//@   property C19
+//@   safety
+
+//@ func NewStringFormatter
+//@   property C19
+//@   safety
+
+//@ func (*StringFormatter).Format
+//@   property C19
+//@   safety
+
+//@ func (*StringFormatter).runes
+//@   property C19
+//@   safety
+
+//@ func (*StringFormatter).literal
+//@   property C19
+//@   safety
+
+//@ func (*StringFormatter).integer
+//@   property C19
+//@   safety
+
+//@ func (*StringFormatter).peek
+//@   property C19
+//@   safety
+
+//@ func (*StringFormatter).next
+//@   property C19
+//@   safety
+
+//@ func (*StringFormatter).isFlag
+//@   property C19
+//@   safety
+
+//@ func (*StringFormatter).isDecimal
+//@   property C19
+//@   safety
+
+//@ func (*StringFormatter).scanDecimal
+//@   property C19
+//@   safety
+
+//@ func (*StringFormatter).numericSign
+//@   property C19
+//@   safety
+
